@@ -145,7 +145,7 @@ def stage1():
         s = s.replace(anchor, anchor + hook % which)
         if "\nGEN_DEPS" in s:
             import re
-            m = re.search(r"\nGEN_DEPS = \[(.*?)\]", s, re.S)
+            m = re.search(r"\nGEN_DEPS = \[(.*?)\](?=\n)", s, re.S)
             assert m, rel
             old = [x.strip().strip('"') for x in m.group(1).split(",") if x.strip()]
             new = old + [d for d in deps if d not in old]
@@ -239,7 +239,7 @@ def add_gen_deps(rel, deps):
     import re
     p = os.path.join(ROOT, rel)
     s = open(p).read()
-    m = re.search(r"\nGEN_DEPS = \[(.*?)\]", s, re.S)
+    m = re.search(r"\nGEN_DEPS = \[(.*?)\](?=\n)", s, re.S)      # up to the bracket that ends the line (names may contain [..])
     assert m, rel
     old = [x.strip().strip('"') for x in m.group(1).split(",") if x.strip()]
     new = old + [d for d in deps if d not in old]
@@ -343,7 +343,195 @@ def stage3():
     return done
 
 
+# ------------------------------------------------------------------ stage 4
+C06_STAGE4 = """
+(* ---- third wave (stage 4): StreamsInfo.read / retrieve as translated on this run is parse_streams.  StreamsGen.streams_of maps
+   the object (three attributes, each an object or None) to the model's record.  Equal up to the CLASS of the exception
+   (res_same), for the reason given at C06_gen_UnpackInfo_retrieve_is_parse_unpackinfo; when the model accepts, the generated
+   reader returns exactly the model's value and rest.  The call of SubstreamsInfo.retrieve gets numfolders and folders from
+   the UnpackInfo object just read: StreamsGen.gen_UnpackInfo_retrieve_ok shows numfolders = len(folders) there. ---- *)
+Theorem C06_gen_StreamsInfo_retrieve_is_parse_streams : forall lim bs, wf_bytes bs = true ->
+  parse_streams lim bs = Err EFuel \\/
+  HeaderGenPrims.res_same (do (o, r) <- ArchiveinfoRecords.StreamsInfo_retrieve bs; Ok (StreamsGen.streams_of o, r))
+                          (parse_streams lim bs).
+Proof. exact StreamsGen.gen_StreamsInfo_retrieve_model_or. Qed.
+Print Assumptions C06_gen_StreamsInfo_retrieve_is_parse_streams.
+
+Theorem C06_gen_StreamsInfo_retrieve_accepts : forall lim bs s r, wf_bytes bs = true -> parse_streams lim bs = Ok (s, r) ->
+  (do (o, r) <- ArchiveinfoRecords.StreamsInfo_retrieve bs; Ok (StreamsGen.streams_of o, r)) = Ok (s, r).
+Proof. exact StreamsGen.gen_StreamsInfo_retrieve_eq_model. Qed.
+Print Assumptions C06_gen_StreamsInfo_retrieve_accepts.
+"""
+
+C07_STAGE4 = """
+(* ---- third wave (stage 4): StreamsInfo.write as translated on this run is write_streams, for every object whose UnpackInfo
+   (if any) has numfolders = len(folders) (UnpackInfo.write asserts it); enable_digests is the PackInfo's attribute. ---- *)
+Theorem C07_gen_StreamsInfo_write_is_write_streams : forall self : ArchiveinfoRecords.StreamsInfo,
+  (forall u, ArchiveinfoRecords.StreamsInfo_unpackinfo self = Some u ->
+             ArchiveinfoRecords.UnpackInfo_numfolders u = zlen (ArchiveinfoRecords.UnpackInfo_folders u)) ->
+  (do (o, out) <- ArchiveinfoRecords.StreamsInfo_write self; Ok out)
+  = write_streams (StreamsGen.streams_digests self) (StreamsGen.streams_of self).
+Proof. exact StreamsGen.gen_StreamsInfo_write_eq_model. Qed.
+Print Assumptions C07_gen_StreamsInfo_write_is_write_streams.
+"""
+
+READ_DEPS_4 = ["StreamsInfo.__init__", "StreamsInfo.read", "StreamsInfo.retrieve"]
+WRITE_DEPS_4 = ["StreamsInfo.__init__", "StreamsInfo.write"]
+
+
+def stage4():
+    done = []
+    add_require("coq/props/C06.v", "From P7 Require SubstreamsGen.\n", "From P7 Require StreamsGen.\n")
+    add_require("coq/props/C07.v", "From P7 Require SubstreamsGen.\n", "From P7 Require StreamsGen.\n")
+    if patch("coq/props/C06.v", "C06_gen_StreamsInfo_retrieve_is_parse_streams", [], C06_STAGE4):
+        done.append("props/C06.v")
+    if patch("coq/props/C07.v", "C07_gen_StreamsInfo_write_is_write_streams", [], C07_STAGE4):
+        done.append("props/C07.v")
+    if add_gen_deps("tools/harness/c06.py", READ_DEPS_4):
+        done.append("tools/harness/c06.py")
+    if add_gen_deps("tools/harness/c07.py", WRITE_DEPS_4):
+        done.append("tools/harness/c07.py")
+    return done
+
+
+# ------------------------------------------------------------------ stage 5
+C06_STAGE5 = """
+(* ---- third wave (stage 5, pieces): read_utf16 and the FilesInfo readers _read_name / _read_attributes / _read_times (one
+   generated function per key the class passes: creationtime, lastaccesstime, lastwritetime) as translated on this run are
+   rd_utf16 / rd_names / rd_per_file and the times branch of parse_file_prop.  An entry of FilesInfo.files is a dict whose
+   keys other than "emptystream" may be absent: record FileEntry with option fields; FilesGen.file_of maps it to the model's
+   fileent (which has no EmptyFile field: the generated functions keep it unchanged). ---- *)
+Theorem C06_gen_read_utf16_is_rd_utf16 : forall bs,
+  (do (cs, r) <- ArchiveinfoRecords.read_utf16 bs; Ok (map fix_backslash cs, r)) = rd_utf16 bs.
+Proof. intros bs. rewrite FilesGen.gen_read_utf16. symmetry. apply FilesGen.rd_utf16_plain_fix. Qed.
+Print Assumptions C06_gen_read_utf16_is_rd_utf16.
+
+Theorem C06_gen_FilesInfo_read_name_is_rd_names : forall (self : ArchiveinfoRecords.FilesInfo) bs,
+  (do (o, r) <- ArchiveinfoRecords.FilesInfo_read_name self bs;
+   Ok (map FilesGen.file_of (ArchiveinfoRecords.FilesInfo_files o), ArchiveinfoRecords.FilesInfo_emptyfiles o, r))
+  = (do (fs, r) <- rd_names (map FilesGen.file_of (ArchiveinfoRecords.FilesInfo_files self)) bs;
+     Ok (fs, ArchiveinfoRecords.FilesInfo_emptyfiles self, r)).
+Proof. exact FilesGen.gen_FilesInfo_read_name_model. Qed.
+Print Assumptions C06_gen_FilesInfo_read_name_is_rd_names.
+
+Theorem C06_gen_FilesInfo_read_attributes_is_rd_per_file : forall (self : ArchiveinfoRecords.FilesInfo) bs defined,
+  (do (o, r) <- ArchiveinfoRecords.FilesInfo_read_attributes self bs defined;
+   Ok (map FilesGen.file_of (ArchiveinfoRecords.FilesInfo_files o), ArchiveinfoRecords.FilesInfo_emptyfiles o, r))
+  = (do (fs, r) <- rd_per_file 4 (map FilesGen.file_of (ArchiveinfoRecords.FilesInfo_files self)) defined set_attr bs;
+     Ok (fs, ArchiveinfoRecords.FilesInfo_emptyfiles self, r)).
+Proof. exact FilesGen.gen_FilesInfo_read_attributes_model. Qed.
+Print Assumptions C06_gen_FilesInfo_read_attributes_is_rd_per_file.
+
+(* FilesGen.times_branch lim which files emptyfiles bs is, verbatim, the branch `(prop =? 18) || (prop =? 19) || (prop =? 20)` of
+   parse_file_prop with the rest of the buffer kept *)
+Theorem C06_gen_FilesInfo_read_times_are_model : forall lim (self : ArchiveinfoRecords.FilesInfo) bs, wf_bytes bs = true ->
+  rd_boolean lim (zlen (ArchiveinfoRecords.FilesInfo_files self)) true bs = Err EFuel \\/
+  ((do (o, r) <- ArchiveinfoRecords.FilesInfo_read_times_creationtime self bs;
+    Ok (map FilesGen.file_of (ArchiveinfoRecords.FilesInfo_files o), ArchiveinfoRecords.FilesInfo_emptyfiles o, r))
+   = FilesGen.times_branch lim 18 (map FilesGen.file_of (ArchiveinfoRecords.FilesInfo_files self)) (ArchiveinfoRecords.FilesInfo_emptyfiles self) bs /\\
+   (do (o, r) <- ArchiveinfoRecords.FilesInfo_read_times_lastaccesstime self bs;
+    Ok (map FilesGen.file_of (ArchiveinfoRecords.FilesInfo_files o), ArchiveinfoRecords.FilesInfo_emptyfiles o, r))
+   = FilesGen.times_branch lim 19 (map FilesGen.file_of (ArchiveinfoRecords.FilesInfo_files self)) (ArchiveinfoRecords.FilesInfo_emptyfiles self) bs /\\
+   (do (o, r) <- ArchiveinfoRecords.FilesInfo_read_times_lastwritetime self bs;
+    Ok (map FilesGen.file_of (ArchiveinfoRecords.FilesInfo_files o), ArchiveinfoRecords.FilesInfo_emptyfiles o, r))
+   = FilesGen.times_branch lim 20 (map FilesGen.file_of (ArchiveinfoRecords.FilesInfo_files self)) (ArchiveinfoRecords.FilesInfo_emptyfiles self) bs).
+Proof. exact FilesGen.gen_FilesInfo_read_times_model. Qed.
+Print Assumptions C06_gen_FilesInfo_read_times_are_model.
+"""
+
+C07_STAGE5 = """
+(* ---- third wave (stage 5, pieces): write_utf16 and the FilesInfo writers _write_names / _write_attributes / _write_times
+   (per key) / _are_there as translated on this run are wr_utf16 / write_names / write_attributes / write_times / any_true,
+   for every object, errors included. ---- *)
+Theorem C07_gen_write_utf16_is_wr_utf16 : forall s, ArchiveinfoRecords.write_utf16 s = wr_utf16 s.
+Proof. exact FilesGen.gen_write_utf16. Qed.
+Print Assumptions C07_gen_write_utf16_is_wr_utf16.
+
+Theorem C07_gen_FilesInfo_write_names_is_write_names : forall self : ArchiveinfoRecords.FilesInfo,
+  ArchiveinfoRecords.FilesInfo_write_names self = write_names (map FilesGen.file_of (ArchiveinfoRecords.FilesInfo_files self)).
+Proof. exact FilesGen.gen_FilesInfo_write_names. Qed.
+Print Assumptions C07_gen_FilesInfo_write_names_is_write_names.
+
+Theorem C07_gen_FilesInfo_write_attributes_is_write_attributes : forall self : ArchiveinfoRecords.FilesInfo,
+  ArchiveinfoRecords.FilesInfo_write_attributes self = write_attributes (map FilesGen.file_of (ArchiveinfoRecords.FilesInfo_files self)).
+Proof. exact FilesGen.gen_FilesInfo_write_attributes. Qed.
+Print Assumptions C07_gen_FilesInfo_write_attributes_is_write_attributes.
+
+Theorem C07_gen_FilesInfo_write_times_are_write_times : forall (self : ArchiveinfoRecords.FilesInfo) p,
+  let fs := map FilesGen.file_of (ArchiveinfoRecords.FilesInfo_files self) in
+  ArchiveinfoRecords.FilesInfo_write_times_creationtime self [p] = write_times p e_ctime fs /\\
+  ArchiveinfoRecords.FilesInfo_write_times_lastaccesstime self [p] = write_times p e_atime fs /\\
+  ArchiveinfoRecords.FilesInfo_write_times_lastwritetime self [p] = write_times p e_mtime fs.
+Proof.
+  intros self p fs. repeat split; [apply FilesGen.gen_FilesInfo_write_times_creationtime
+                                  | apply FilesGen.gen_FilesInfo_write_times_lastaccesstime
+                                  | apply FilesGen.gen_FilesInfo_write_times_lastwritetime].
+Qed.
+Print Assumptions C07_gen_FilesInfo_write_times_are_write_times.
+
+Theorem C07_gen_FilesInfo_are_there_is_any_true : forall v, ArchiveinfoRecords.FilesInfo_are_there v = Ok (any_true v).
+Proof. exact FilesGen.gen_FilesInfo_are_there. Qed.
+Print Assumptions C07_gen_FilesInfo_are_there_is_any_true.
+"""
+
+C06_STAGE5B = """
+(* ---- third wave (stage 5, whole reader): FilesInfo._read / retrieve as translated on this run is parse_files.  The `while
+   True` loop runs on explicit fuel (any fuel above the length of the input suffices: every round that does not end the loop
+   consumes the property id and a NUMBER).  FilesGen.entry_flags reads the EmptyFile flag _read stores with every empty-stream
+   entry: together they are the model's second component.  Equal up to the class of the exception (res_same): START_POS
+   (id 24; _read_start_pos always fails an assert) and the "external" forms of names / attributes (fp.tell / fp.seek,
+   "no-cover") are not translated: the generated function answers EUnsupported there. ---- *)
+Theorem C06_gen_FilesInfo_retrieve_is_parse_files : forall lim bs fuel, wf_bytes bs = true -> (length bs < fuel)%nat ->
+  parse_files lim bs = Err EFuel \\/
+  HeaderGenPrims.res_same
+    (do (o, r) <- ArchiveinfoRecords.FilesInfo_retrieve bs fuel;
+     Ok ((map FilesGen.file_of (ArchiveinfoRecords.FilesInfo_files o), FilesGen.entry_flags (ArchiveinfoRecords.FilesInfo_files o)), r))
+    (parse_files lim bs).
+Proof. exact FilesGen.gen_FilesInfo_retrieve_model_or. Qed.
+Print Assumptions C06_gen_FilesInfo_retrieve_is_parse_files.
+"""
+
+C07_STAGE5C = """
+(* ---- third wave (stage 5, whole writer): FilesInfo.write as translated on this run is write_files, for every object and every
+   start position pos0 (= file.tell() when the method is entered, the explicit parameter that stands for the position of the
+   file; the kDummy padding is computed from it).  The model's vector of EmptyFile bits is FilesGen.entry_flags: the flag the
+   code keeps with each empty-stream entry (absent = False). ---- *)
+Theorem C07_gen_FilesInfo_write_is_write_files : forall (self : ArchiveinfoRecords.FilesInfo) pos,
+  ArchiveinfoRecords.FilesInfo_write self pos
+  = write_files pos (map FilesGen.file_of (ArchiveinfoRecords.FilesInfo_files self)) (FilesGen.entry_flags (ArchiveinfoRecords.FilesInfo_files self)).
+Proof. exact FilesGen.gen_FilesInfo_write. Qed.
+Print Assumptions C07_gen_FilesInfo_write_is_write_files.
+"""
+
+READ_DEPS_5 = ["read_utf16", "FileEntry", "FilesInfo.__init__", "FilesInfo._read_name", "FilesInfo._read_attributes",
+               "FilesInfo._read_times[creationtime]", "FilesInfo._read_times[lastaccesstime]", "FilesInfo._read_times[lastwritetime]"]
+WRITE_DEPS_5 = ["write_utf16", "FileEntry", "FilesInfo.__init__", "FilesInfo._are_there", "FilesInfo._write_names",
+                "FilesInfo._write_attributes", "FilesInfo._write_times[creationtime]", "FilesInfo._write_times[lastaccesstime]",
+                "FilesInfo._write_times[lastwritetime]"]
+
+
+def stage5():
+    done = []
+    add_require("coq/props/C06.v", "From P7 Require StreamsGen.\n", "From P7 Require FilesGen.\n")
+    add_require("coq/props/C07.v", "From P7 Require StreamsGen.\n", "From P7 Require FilesGen.\n")
+    if patch("coq/props/C06.v", "C06_gen_read_utf16_is_rd_utf16", [], C06_STAGE5):
+        done.append("props/C06.v")
+    if patch("coq/props/C07.v", "C07_gen_write_utf16_is_wr_utf16", [], C07_STAGE5):
+        done.append("props/C07.v")
+    if patch("coq/props/C06.v", "C06_gen_FilesInfo_retrieve_is_parse_files", [], C06_STAGE5B):
+        done.append("props/C06.v (whole reader)")
+    if add_gen_deps("tools/harness/c06.py", READ_DEPS_5 + ["FilesInfo._read", "FilesInfo.retrieve"]):
+        done.append("tools/harness/c06.py")
+    if patch("coq/props/C07.v", "C07_gen_FilesInfo_write_is_write_files", [], C07_STAGE5C):
+        done.append("props/C07.v (whole writer)")
+    if add_gen_deps("tools/harness/c07.py", WRITE_DEPS_5 + ["FilesInfo.write"]):
+        done.append("tools/harness/c07.py")
+    return done
+
+
 if __name__ == "__main__":
     print("stage 1:", stage1())
     print("stage 2:", stage2())
     print("stage 3:", stage3())
+    print("stage 4:", stage4())
+    print("stage 5:", stage5())
